@@ -1119,6 +1119,7 @@ func (sr *storeRun) porcupineModel(final *Snapshot) porcupine.Model {
 			if got.Err != "" && exp.Err == "" {
 				return false, m
 			}
+			_ = exp.Err == "*" // refused-or-ignored operations change nothing either way
 			return true, m
 		},
 		Equal: func(a, b interface{}) bool { return a.(*SModel).Key() == b.(*SModel).Key() },
